@@ -416,3 +416,8 @@ def run(ctx):
             keyt = M.noref(Tr.place(up[0]["p"])) if up else None
             ok = a == ("field", ("param", 2, cr.local_name(2)), "0") and M.strip(b) == keyt and keyt is not None
     ctx.ob("R16.6", "env_remove.retain=key!=arg", ok, cr.loc(0) if cr else "", "the retain predicate must be `entry.0 != key` (keep everything except the named variable)")
+
+
+def run_thorough(ctx):
+    # A8: clauses enforced by the type system itself, witnessed by compile_fail doctests with compiling twins
+    ctx.witness("R16.5", ['ExecFieldsPrivate'])
